@@ -452,6 +452,94 @@ def displacement(E, L):
 
 
 # ----------------------------------------------------------------------------
+# System.dvect / System.dmag: the selected positions go to dvect / dmag untouched, with the system's own cell and periodicity
+
+_rec_sys_dvect = _Rec('dvect')
+_rec_sys_dmag = _Rec('dmag')
+
+
+def _replay_system(stem, vals):
+    from pyvc.native import atomman
+    import numpy as np
+    am = atomman()
+    msgs = []
+    try:
+        rng = np.random.RandomState(11)
+        for V in (np.diag([3.0, 4.0, 5.0]), np.array([[4.0, 0, 0], [1.0, 3.5, 0], [0.5, -0.8, 5.0]])):
+            box = am.Box(vects=V, origin=[0.3, -0.2, 0.1])
+            for pbc in PBCS:
+                srel = rng.uniform(-1.6, 2.6, (6, 3))              # several atoms lie outside the cell, also along non-periodic directions
+                pos = srel.dot(V) + box.origin
+                s = am.System(atoms=am.Atoms(pos=pos), box=box, pbc=pbc)
+                for a, b in ((0, 1), (-1, 2), (0, [1, 2, 3]), (slice(0, 2), slice(3, 5)), (pos[4] + 0.1, pos[5]), ([0.1, 0.2, 0.3], 3)):
+                    pa = pos[a] if not (isinstance(a, (list, np.ndarray)) and np.ndim(a) == 1 and len(a) == 3 and not isinstance(a[0], (int, np.integer))) else np.asarray(a, dtype=float)
+                    pb = pos[b] if not (isinstance(b, (list, np.ndarray)) and np.ndim(b) == 1 and len(b) == 3 and not isinstance(b[0], (int, np.integer))) else np.asarray(b, dtype=float)
+                    want = am.dvect(pa, pb, box, pbc)
+                    wantm = am.dmag(pa, pb, box, pbc)
+                    got, gotm = s.dvect(a, b), s.dmag(a, b)
+                    if not np.allclose(np.atleast_2d(got), want, atol=1e-10) or not np.allclose(np.atleast_1d(gotm), wantm, atol=1e-10):
+                        msgs.append('pbc %r: System.dvect/dmag(%r, %r) = %r / %r but dvect/dmag of those positions in the system\'s cell is %r / %r' % (pbc, a, b, np.round(got, 4).tolist(), np.round(gotm, 4).tolist(),
+                                                                                                                                                       np.round(want, 4).tolist(), np.round(wantm, 4).tolist()))
+                if len(msgs) > 2:
+                    raise StopIteration
+    except StopIteration:
+        pass
+    except Exception as e:
+        msgs.append('raised %s: %s' % (type(e).__name__, e))
+    return (len(msgs) > 0, '; '.join(msgs[:2]) if msgs else 'System.dvect/dmag agree with dvect/dmag of the selected positions for 2 cells x 8 pbc (atoms outside the cell included)')
+
+
+@group('System.dvect_dmag', files=[SYSF], functions=['System.dvect', 'System.dmag'],
+       clause="System.dvect / System.dmag hand the selected positions (atom indices: int, negative, list, slice; or coordinates) UNCHANGED to dvect / dmag together with the system's own cell "
+              "and periodicity, once, and return that result (a single pair: the single row)", replay=_replay_system)
+def system_dvect_dmag(E, L):
+    core = L.resolve('atomman.core')
+    SysCls = core.System
+    sysmod = L.load(SYSF)
+    # the callees are replaced by recorders standing for their contracts (the names dvect / dmag as System.py's own module globals)
+    sysmod.dvect, sysmod.dmag = _rec_sys_dvect, _rec_sys_dmag
+    n = 4
+    pos = E.reals('pos', (n, 3))
+    V = E.reals('V', (3, 3))
+    o = E.reals('o', (3,))
+    E.assume(det3(V) != 0)
+    box = core.Box()
+    box._Box__vects = V.copy()
+    box._Box__origin = o.copy()
+    box._Box__reciprocal_vects = None
+    pbc = (True, False, True)
+    s = object.__new__(SysCls)
+    at = core.Atoms(pos=pos.copy(), atype=[1] * n)
+    s._System__atoms, s._System__box, s._System__pbc = at, box, pbc
+    c0 = E.reals('c0', (3,))
+    c1 = E.reals('c1', (2, 3))
+    E.canary('System.dvect_dmag.canary', pos[0, 0] == c0[0])
+    cases = {'int,int': (0, 2, pos[0:1], pos[2:3]), 'neg,int': (-1, 1, pos[3:4], pos[1:2]), 'int,list': (0, [1, 3], pos[0:1], pos[[1, 3]]), 'slice,slice': (slice(0, 2), slice(2, 4), pos[0:2], pos[2:4]),
+             'coords,int': (c0, 2, c0[None, :], pos[2:3]), 'coords,coords': (c0, c1, c0[None, :], c1)}
+    for meth, rec in (('dvect', _rec_sys_dvect), ('dmag', _rec_sys_dmag)):
+        for nm, (a, b, wa, wb) in cases.items():
+            del rec.calls[:]
+            E.side_enabled = False
+            r = getattr(SysCls, meth)(s, a, b)
+            E.side_enabled = True
+            tag = 'System.%s[%s]' % (meth, nm)
+            E.shape(tag + '.one_call', len(rec.calls) == 1)
+            p0, p1, bx, pb, res = rec.calls[0]
+            E.prove_eq(tag + '.first_positions_unchanged', snp.asarray(_np.atleast_2d(_np.asarray(p0, dtype=object))), snp.asarray(_np.asarray(wa, dtype=object)))
+            E.prove_eq(tag + '.second_positions_unchanged', snp.asarray(_np.atleast_2d(_np.asarray(p1, dtype=object))), snp.asarray(_np.asarray(wb, dtype=object)))
+            E.prove(tag + '.own_cell_and_periodicity', bx is box and tuple(pb) == pbc)
+            single = len(res) == 1
+            E.prove(tag + '.returns_that_result', (r is res) if not single else same_row(r, res[0]))
+    E.prove('System.dvect_dmag.atoms_untouched', all(at.view['pos'][i, j].t is pos[i, j].t for i in range(n) for j in range(3)))
+
+
+def same_row(r, row):
+    r = _np.atleast_1d(_np.asarray(r, dtype=object))
+    row = _np.atleast_1d(_np.asarray(row, dtype=object))
+    return r.shape == row.shape and all((x.t is y.t) if isinstance(x, Sym) and isinstance(y, Sym) else x == y for x, y in zip(r.ravel(), row.ravel()))
+
+
+# ----------------------------------------------------------------------------
 # lemma: orthogonal cell, both points inside  =>  the shortest of the 27 candidates is the true nearest image over all of Z^3
 
 @group('lemma.orthogonal_nearest_image', files=[], functions=['lemma over the dvect_c contract'],
